@@ -195,7 +195,8 @@ def st_bulk(alphabet, min_size, max_size):
 
 def st_seq_string(kind, maxlen, min_size=0):
     a = ALPHABETS[kind]
-    opts = [st.text(a, min_size=min_size, max_size=8), st_bulk(a, max(min_size, 1), maxlen)]
+    bulk = st_bulk(a, max(min_size, 1), maxlen)
+    opts = [st.text(a, min_size=max(min_size, 1), max_size=8), bulk, bulk, bulk]
     if min_size == 0:
         opts.append(st.just(""))
     return st.one_of(*opts)
@@ -1161,7 +1162,7 @@ def run_edit_gff(case):
     return _done(o)
 
 
-GB_NAMES = ["LOCUS", "DEFINITION", "COMMENT", "REFERENCE", "SOURCE", "keywords", "Dblink", "A_B", "ABCDEFGHIJKL", "X"]
+GB_NAMES = ["LOCUS", "DEFINITION", "REFERENCE", "REFERENCE", "keywords", "A_B", "ABCDEFGHIJKL"]
 GB_SUBNAMES = ["ORGANISM", "AUTHORS", "TITLE", "journal", "PUBMED", "S", "ABCDEFGHIJ"]
 
 
@@ -1347,6 +1348,93 @@ def run_edit_genbank(case):
 
 
 # --------------------------------------------------------------------------
+# (f) convenience functions save_sequence(s) / load_sequence(s) (sequence/io/general.py)
+# --------------------------------------------------------------------------
+GENERAL_SUFFIX = {
+    ".fasta": "fasta",
+    ".fa": "fasta",
+    ".mpfa": "fasta",
+    ".fna": "fasta",
+    ".fsa": "fasta",
+    ".fastq": "fastq",
+    ".fq": "fastq",
+    ".gb": "gb",
+    ".gbk": "gb",
+    ".gp": "gp",
+}
+
+
+def st_general_io(tier):
+    maxlen = 100 if tier == "quick" else 400
+
+    @st.composite
+    def gen(draw):
+        suffix = draw(st.sampled_from(sorted(GENERAL_SUFFIX)))
+        fmt = GENERAL_SUFFIX[suffix]
+        many = fmt in ("fasta", "fastq") and draw(st.booleans())
+        if fmt == "fasta":
+            kinds = ["nuc", "ambig", "prot"]
+        elif fmt == "gp":
+            kinds = ["prot"]
+        else:
+            kinds = ["nuc", "ambig"]
+        n = draw(st.integers(1, 4)) if many else 1
+        headers = draw(st.lists(st_header(), min_size=n, max_size=n, unique=True))
+        entries = []
+        narrowed = 0
+        for h in headers:
+            kind = draw(st.sampled_from(kinds))
+            min_size = 0 if fmt in ("fasta", "fastq") else 1  # an empty ORIGIN field is rejected by design
+            if fmt == "fastq" and findings.is_open(F1):
+                min_size = 1
+                narrowed += draw(st.integers(0, 11)) == 0
+            seq = draw(st_seq_string(kind, maxlen, min_size=min_size))
+            if kind == "prot" and fmt == "fasta":
+                # without a type the reader takes a protein made of nucleotide letters for a
+                # nucleotide sequence and reads 'X' as 'N': the file does not carry the type
+                seq = seq.replace("X", "W")
+            entries.append({"h": h, "kind": kind, "s": seq})
+        return {"suffix": suffix, "many": many, "entries": entries, "narrowed_F1": int(narrowed)}
+
+    return gen()
+
+
+def run_general_io(case):
+    import os
+    import tempfile
+
+    import biotite.sequence.io as seqio
+
+    o = Outcome()
+    for _ in range(case.get("narrowed_F1", 0)):
+        o.exclude(F1)
+    entries = case["entries"]
+    with tempfile.TemporaryDirectory(prefix="verif_C12_") as d:
+        path = os.path.join(d, "file" + case["suffix"])
+        if case["many"]:
+            seqio.save_sequences(path, {e["h"]: _mk_sequence(e["kind"], e["s"]) for e in entries})
+            got = seqio.load_sequences(path)
+            o.check_eq(
+                [(h, str(s)) for h, s in got.items()],
+                [(e["h"], e["s"]) for e in entries],
+                "general_io_entries_in_order",
+                f"load_sequences(save_sequences(*{case['suffix']}))",
+            )
+        else:
+            e = entries[0]
+            seqio.save_sequence(path, _mk_sequence(e["kind"], e["s"]))
+            got = seqio.load_sequence(path)
+            o.check_eq(str(got), e["s"], "general_io_symbols", f"load_sequence(save_sequence(*{case['suffix']}))")
+            if GENERAL_SUFFIX[case["suffix"]] in ("gb", "gp"):
+                o.check(isinstance(got, _seq_class(e["kind"])), "general_io_symbols", f"type {type(got).__name__}")
+    o.label("suffix=" + case["suffix"], "many" if case["many"] else "one")
+    for e in entries:
+        o.label("kind=" + e["kind"])
+    o.mark_nontrivial(len(entries) >= 2 or any(len(e["s"]) > 80 for e in entries))
+    return _done(o)
+
+
+# --------------------------------------------------------------------------
 SUBS = [
     Sub(
         "fasta",
@@ -1430,11 +1518,20 @@ SUBS = [
         rule="a set or delete on a file with >= 2 fields, or a set_annotation with a non-trivial feature",
         clauses="insert/append/set/del/set_field/set_annotation/set_sequence on a GenBankFile keep text, field view and a list model consistent",
     ),
+    Sub(
+        "general_io",
+        st_general_io,
+        run_general_io,
+        quick=1600,
+        thorough=32000,
+        rule=">= 2 sequences in one file, or a sequence longer than one line (80 characters)",
+        clauses="save_sequence(s)/load_sequence(s) by file suffix (FASTA, FASTQ, GenBank, GenPept): same entries in the same order, same symbols",
+    ),
 ]
 
 
 def _has_empty_read(sub, case):
-    if sub == "fastq":
+    if sub == "fastq" or (sub == "general_io" and GENERAL_SUFFIX[case["suffix"]] == "fastq"):
         return any(len(e["s"]) == 0 for e in case["entries"])
     if sub == "edit_fastq":
         return any(len(x[1]) == 0 for x in case["init"]) or any(op[0] == "set" and len(op[2]) == 0 for op in case["ops"])
